@@ -32,13 +32,17 @@ pub fn check(tier: Tier) -> Check {
     // identifier flavour: the counters start next to a boundary of their encodings (DESIGN 4)
     parts.push(Part::new("C05/ops", json!({"depth": tier.pick(5, 6), "ids": [32766, 126]}), 0, tier.pick(40, 600)));
     parts.push(Part::new("C05/ops", json!({"depth": tier.pick(4, 5), "ids": [254, 16382]}), 1, tier.pick(40, 600)));
+    // an abandoned operation (its future dropped) must not shift the completions of the others:
+    // a cancellation is a deviation here (C15 explores cancellation for its own sake)
+    parts.push(Part::new("C05/ops", json!({"depth": tier.pick(5, 6), "cancel": true}), 1, tier.pick(40, 600)));
+    parts.push(Part::new("C05/ops", json!({"depth": tier.pick(4, 5), "cancel": true}), 2, tier.pick(40, 600)));
     // two operations outstanding whose packet identifiers differ in exactly one bit
     parts.push(Part::new("C05/bits", json!({}), 0, 120));
     Check {
         also_rel: false,
         property: "C05",
         level: "model_checking",
-        rule: "all event sequences (operation starts, conformant acknowledgements in every order with distinguishing content, delayed / spurious polls as deviations) up to the stated depth and deviation bound; plus 9 deterministic runs with 600 operations of all kinds outstanding at once (packet identifiers spanning several multiples of 256 and the wrap) acknowledged in three permutations; plus every pair of operation kinds outstanding with packet identifiers that differ in exactly one bit (bit 0..15, two base values), acknowledged in both orders; non-trivial = an execution in which at least one acknowledgement completed an operation".into(),
+        rule: "all event sequences (operation starts, conformant acknowledgements in every order with distinguishing content, delayed / spurious polls - and, in two parts, the cancellation of another operation - as deviations) up to the stated depth and deviation bound; plus 9 deterministic runs with 600 operations of all kinds outstanding at once (packet identifiers spanning several multiples of 256 and the wrap) acknowledged in three permutations; plus every pair of operation kinds outstanding with packet identifiers that differ in exactly one bit (bit 0..15, two base values), acknowledged in both orders; non-trivial = an execution in which at least one acknowledgement completed an operation".into(),
         assumptions: vec![
             "broker events are conformant (acknowledgements only for outstanding identifiers)".into(),
             "futures-channel is in the trusted base".into(),
@@ -257,7 +261,18 @@ pub fn scenario(name: &str, params: &Value) -> Scenario {
             if sys.dead {
                 break;
             }
-            let devs = deviations(&sys, true);
+            let mut devs = deviations(&sys, true);
+            if params["cancel"].as_bool().unwrap_or(false) {
+                for i in 0..sys.m.ops.len() {
+                    let o = &sys.m.ops[i];
+                    // (a QoS 2 publish abandoned before its PUBREC is the recorded finding K-C15-1)
+                    let q2_early = matches!(&o.spec, OpSpec::Publish(p) if p.qos() == 2)
+                        && !matches!(o.st, St::AwaitComp);
+                    if o.alive && o.st != St::Done && !q2_early {
+                        devs.push(Ev::Cancel(i));
+                    }
+                }
+            }
             let d = chz.deviate(1 + devs.len());
             if d > 0 {
                 sys.apply(devs[d - 1].clone());
